@@ -20,7 +20,10 @@ Inductive case :=
 | KInverse (bin bout : option sarg) (strict : bool) (o : option omap)
 | KExample (sfx : string) (bin bout : option sarg) (strict : bool) (o : table)
 | KCompose (sfx : string) (bin1 bout1 : option sarg) (strict1 : bool) (bin2 bout2 : option sarg) (strict2 : bool)
-      (o : ocompose).          (* map1.compose(map2) *)
+      (o : ocompose)           (* map1.compose(map2) *)
+| KComposeOk (sfx : string) (bin1 bout1 : option sarg) (strict1 : bool) (bin2 bout2 : option sarg) (strict2 : bool).
+      (* when map1.compose(map2) is a map it has map2's input side and the layout of map1's output side (composite_ok):
+         the hypothesis of the C17_compose_sound_partial theorems, checked on every sampled composite *)
 
 Definition build_spec (a : sarg) : option recspec :=
   let '(cs, rs, rk, ctk, strict) := a in mk_spec (mktable cs rs) rk ctk strict.
@@ -91,6 +94,15 @@ Definition case_ok (c : case) : bool :=
       | CNone, OCNone => true
       | CMap m, OCMap o' => map_matches m o'
       | _, _ => false
+      end
+    | _, _ => false
+    end
+  | KComposeOk sfx bin1 bout1 strict1 bin2 bout2 strict2 =>
+    match build_map bin1 bout1 strict1, build_map bin2 bout2 strict2 with
+    | Some m1, Some m2 =>
+      match compose sfx m1 m2 with
+      | CMap c => composite_ok (rm_in m2) (rm_out m1) c
+      | _ => true
       end
     | _, _ => false
     end
